@@ -267,6 +267,7 @@ def check_tables():
     if len(chain) != 1:
         raise Untranslatable(f"{CHK}:{ck.lineno}: expected one if / elif chain")
     wiring = []
+    guards = []
     node = chain[0]
     while True:
         t = node.test
@@ -283,11 +284,23 @@ def check_tables():
             if isinstance(n, ast.If):
                 conds.append(ast.unparse(n.test))
         wiring.append((t.comparators[0].id, called, conds))
+        # (guard, check): the innermost `if <name>:` whose body calls the check directly ("" = unguarded)
+        def walk(stmts, guard):
+            for st in stmts:
+                if isinstance(st, ast.If):
+                    g = ast.unparse(st.test)
+                    walk(st.body, g if isinstance(st.test, ast.Name) else guard)
+                    walk(st.orelse, guard)
+                else:
+                    for n in ast.walk(st):
+                        if isinstance(n, ast.Call) and isinstance(n.func, ast.Attribute) and n.func.attr.endswith("_all"):
+                            guards.append((t.comparators[0].id, guard, n.func.attr))
+        walk(node.body, "")
         if len(node.orelse) == 1 and isinstance(node.orelse[0], ast.If):
             node = node.orelse[0]
         else:
             break
-    return consts, atol, branch, attr, wiring
+    return consts, atol, branch, attr, wiring, guards
 
 
 def _s(x):
@@ -305,7 +318,7 @@ def _rat(f):
 def generate():
     nb, ni, passed = loop_shape()
     params, entries = qt_tables()
-    consts, atol, branch, attr, wiring = check_tables()
+    consts, atol, branch, attr, wiring, guards = check_tables()
     flows = flow_seeds()
 
     def cval(name):
@@ -343,6 +356,9 @@ def generate():
          "/-- `execute_physicality_violation_check`: (estimator class, checks called in the branch, nested conditions) -/",
          "def checkWiring : List (String × List String × List String) := [",
          "  " + ",\n  ".join(f"({_s(c)}, {_ls(k)}, {_ls(cd)})" for c, k, cd in wiring) + "]", "",
+         "/-- (estimator class, innermost guard variable around the call (\"\" = none), check called) -/",
+         "def checkGuards : List (String × String × String) := [" +
+         ", ".join(f"({_s(c)}, {_s(g)}, {_s(k)})" for c, g, k in guards) + "]", "",
          "end QGen.C15", ""]
     return "\n".join(L)
 
